@@ -447,6 +447,8 @@ class AppClock(Clock, metaclass=MetaAppClock):
 
     '''
 
+    _tick_pending = False  # Set by sched under _tick_cond, consumed by _run.
+
     def __new__(cls):
         return cls
 
@@ -463,7 +465,12 @@ class AppClock(Clock, metaclass=MetaAppClock):
             with cls._tick_cond:  # many notify one wait
                 if not cls._run_sched:
                     return
-                cls._tick_cond.wait(seconds)  # if seconds is None waits for notify
+                # A sched() that ran after the tick above and before this
+                # block has already notified (nobody was waiting): don't wait,
+                # tick again.
+                if not cls._tick_pending:
+                    cls._tick_cond.wait(seconds)  # if seconds is None waits for notify
+                cls._tick_pending = False
 
     @classmethod
     def clear(cls):
@@ -495,6 +502,7 @@ class AppClock(Clock, metaclass=MetaAppClock):
             with cls._sched_lock:
                 cls._scheduler.sched(delta, item)
             with cls._tick_cond:
+                cls._tick_pending = True
                 cls._tick_cond.notify()
 
     @classmethod
